@@ -38,3 +38,15 @@ package api
 //@ func (API).EnqueueCQE
 //@ iface
 //@ records api_enqueue_cqe
+
+// The kernel as seen by a front end: a submission is enqueued, then exactly one completion comes back for
+// it: a response of the request's kind with one of that operation's statuses, or a platform error.
+//@ func (API).EnqueueSQE
+//@ iface
+//@ records kernel_enqueue
+
+//@ func (API).DequeueCQE
+//@ iface
+//@ ensures result != nil && (result.Completion != nil) != (result.Error != nil)
+//@ ensures calls("kernel_enqueue") == 1 && result.Completion != nil ==> kernel_reply(callarg("kernel_enqueue", 0, 1).Submission, result.Completion)
+//@ ensures calls("kernel_enqueue") == 1 && result.Error != nil ==> kernel_fail(callarg("kernel_enqueue", 0, 1).Submission, errcode(result.Error))
